@@ -140,7 +140,7 @@ class BigMapType(MapType, prim='big_map', args_len=2):
             removed_keys: List[MichelsonType] = []
             for update in diff['diff'].get('updates', []):
                 key = self.args[0].from_micheline_value(update['key'])
-                if update.get('value'):
+                if update.get('value') is not None:  # NOTE: `[]` (an empty list / set / map / code block) is a value, not a removal
                     value = self.args[1].from_micheline_value(update['value'])
                     items.append((key, value))
                 else:
